@@ -62,6 +62,12 @@ TypePriceOf(s, tx) ==
      [] tx.type = "EditMultisig" -> PT(s).EditMultisig
      [] tx.type = "RedeemCheck" -> PT(s).RedeemCheck
      [] tx.type = "Lock" -> PT(s).Lock
+     [] tx.type = "Delegate" -> PT(s).Delegate
+     [] tx.type = "Unbond" -> PT(s).Unbond
+     [] tx.type = "MoveStake" -> PT(s).MoveStake
+     [] tx.type = "LockStake" -> PT(s).LockStake
+     [] tx.type = "SetCandidateOn" -> PT(s).SetCandidateOn
+     [] tx.type = "SetCandidateOff" -> PT(s).SetCandidateOff
      [] OTHER -> Zero
 PriceFor(s, tx) == tx.gasPrice ** (TypePriceOf(s, tx) ++ (Nat2A(tx.bytes) ** PT(s).PayloadByte))
 FailPriceFor(s, tx) == tx.gasPrice ** (PT(s).FailedTx ++ (Nat2A(tx.bytes) ** PT(s).PayloadByte))
